@@ -34,6 +34,39 @@ theorem seek_restores_snapshot (W S : Nat) (x : Coder) (later : List (C01.Entry 
   obtain ⟨pre, h1, h2⟩ := replay_bulk_suffix W S x later
   exact seek_snapshot x _ h2 pre h1
 
+
+/-- `Seek::seek` of a decoder over a `Cursor` holding the finished data (what
+    `as_seekable_decoder` / `into_seekable_decoder` give; `Cursor::seek` only moves the position;
+    `C17_ans_cursor_seek` shows this is the image of the backend model) -/
+def seekCursor (data : List Nat) (p : Nat × Nat) : Option Coder :=
+  if p.1 ≤ data.length then
+    some { bulk := (data.take p.1).reverse, state := p.2, cap := some data.length }
+  else none
+
+/-- **Random access through a cursor, from wherever the decoder is.** `data` is the finished
+    bulk of the encoder (in `Vec` order) after anything was encoded on top of `x`; seeking a
+    cursor-backed decoder over `data` to the snapshot taken from `x` — independently of the
+    decoder's current position and state, which `seekCursor` does not even read — yields
+    exactly the coder `x` (up to the backend's capacity field). -/
+theorem seek_cursor_restores_snapshot (W S : Nat) (x : Coder) (later : List (C01.Entry Sym)) :
+    seekCursor (C01.replay W S x later).bulk.reverse (pos x)
+      = some { x with cap := some (C01.replay W S x later).bulk.length } := by
+  obtain ⟨pre, h1, _⟩ := replay_bulk_suffix W S x later
+  unfold seekCursor pos
+  simp only [h1, List.reverse_append, List.length_append, List.length_reverse]
+  have hle : x.bulk.length ≤ x.bulk.length + pre.length := Nat.le_add_right _ _
+  rw [Nat.add_comm pre.length] 
+  simp only [hle, if_true]
+  have : ((x.bulk.reverse ++ pre.reverse).take x.bulk.length).reverse = x.bulk := by
+    rw [← List.length_reverse, List.take_left, List.reverse_reverse]
+  rw [this]
+
+theorem seek_cursor_out_of_range (data : List Nat) (p : Nat × Nat) (h : data.length < p.1) :
+    seekCursor data p = none := by
+  unfold seekCursor
+  have : ¬ p.1 ≤ data.length := by omega
+  simp only [this, if_false]
+
 theorem seek_is_idempotent (x y : Coder) (hcap : y.cap = x.cap) (pre : List Nat)
     (h : y.bulk = pre ++ x.bulk) :
     (seek y (pos x)).bind (fun z => seek z (pos x)) = some x := by
@@ -49,4 +82,6 @@ end CV.Ans.C07
 #print axioms CV.Ans.C07.replay_bulk_suffix
 #print axioms CV.Ans.C07.seek_restores_snapshot
 #print axioms CV.Ans.C07.seek_is_idempotent
+#print axioms CV.Ans.C07.seek_cursor_restores_snapshot
+#print axioms CV.Ans.C07.seek_cursor_out_of_range
 #print axioms CV.Ans.C07.seek_out_of_range_rejected
